@@ -237,11 +237,18 @@ func (h *seqHistory) refCheck(ev *refEvent, impl string) {
 				break
 			}
 		}
+		ds := downs[d.eui]
 		if next != nil && len(next.data) > drLimit[ev.dr] {
-			r.off = true // over the limit of this uplink's data rate: outside C06's quantifier
+			// over the limit of this uplink's data rate: outside C06's quantifier (the message is sent
+			// in pieces); C09 still holds for this answer: one frame, ACK exactly for a confirmed uplink
+			r.off = true
+			if len(ds) != 1 {
+				h.refFail("answer-count", fmt.Sprintf("C09: accepted uplink fcnt %d of %s (over-long message pending) was answered by %d downlinks", ev.fc, d.eui, len(ds)), fmt.Sprint(len(ds)), "1")
+			} else if ds[0].ack != ev.confirmed {
+				h.refFail("ack-bit", fmt.Sprintf("C09: ACK bit of the answer is %v for an uplink with confirmed=%v (over-long message pending)", ds[0].ack, ev.confirmed), ds[0].raw, "")
+			}
 			continue
 		}
-		ds := downs[d.eui]
 		wantFrames := 0
 		if next != nil || ev.confirmed {
 			wantFrames = 1
